@@ -64,8 +64,11 @@ def generate(seed, run, tier):
         ops.append(op)
         if op['op'] == 'backward_only' and rs.chance(0.7):
             ops.append({'op': 'opt_step', 'which': op['which'], 'lr': op['lr']})
+    if crash_pos is not None and crash_pos > len(ops):
+        # all positions of this schedule are already enumerated: use the slot for an ordinary seeded run
+        return generate(seed, run + 10 ** 7, 'quick_from_thorough')
     if crash_pos is not None:
-        pos = [crash_pos % (len(ops) + 1)]
+        pos = [crash_pos]
     elif sw.chance(0.05):
         pos = list(range(len(ops) + 1))         # crash storm: a restart at every op boundary
     else:
